@@ -281,6 +281,9 @@ func (o *GoObjSpec) Build() (obj interface{}, err error) {
 // sec, which keeps replays exact): none, one nanosecond, the last nanosecond
 // of the second or any other, in UTC, the local zone or a fixed offset.
 func TimeOf(sec int64) time.Time {
+	if sec == -62135596800 {
+		return time.Time{} // the instant a host has never set
+	}
 	h := uint64(sec) * 0x9E3779B97F4A7C15
 	var nsec int64
 	switch h >> 61 {
